@@ -295,7 +295,9 @@ static void mode_raw(Case &c) {
 	}
 	set_desc(std::string("{\"mode\":\"syn-raw\",\"lzma2\":") + (l2 ? "true" : "false") + ",\"len\":" + std::to_string(bytes.size()) + ",\"plain\":" + std::to_string(plain.size()) + ",\"pdict\":" + std::to_string(pd.size()) + ",\"dict\":" + std::to_string(o.dict_size) + ",\"schedule\":" + sch.describe() + "}");
 	lzma_stream s = LZMA_STREAM_INIT; s.allocator = AL();
-	if (lzma_raw_decoder(&s, f) != LZMA_OK) harness_bug("raw decoder init");
+	{ lzma_ret ir = lzma_raw_decoder(&s, f);
+		if (ir == LZMA_MEM_ERROR) { lzma_end(&s); count("environment_or_inconclusive"); return; }
+		if (ir != LZMA_OK) violation("C03:valid-rejected", "lzma_raw_decoder refuses a valid %s chain (dict %u, lc %u lp %u pb %u, preset dictionary %zu bytes) with %s", l2 ? "LZMA2" : "LZMA1", o.dict_size, o.lc, o.lp, o.pb, pd.size(), drv::retname(ir)); }
 	drv::Opts op; op.out_cap = plain.size() + 4096;
 	drv::Result L = drv::run(&s, bytes.data(), bytes.size(), sch, op); lzma_end(&s);
 	if (L.ret == LZMA_MEM_ERROR) { count("environment_or_inconclusive"); return; }
